@@ -1135,8 +1135,7 @@ Proof. intros. unfold crun. apply crun_from_inv. apply cinit_inv. Qed.
 
 (* ---- conservation with calls in progress ------------------------------- *)
 
-Definition overlap_conservation_stmt (cfg : config) (ops : list cop) : Prop :=
-  let cs := crun cfg ops in
+Definition overlap_conservation_cs (cfg : config) (cs : cstate) : Prop :=
   let s := c_base cs in
   Permutation (g_all s) (queue s ++ inflight cs ++ map fst (g_fates s)) /\
   NoDup (ids (queue s) ++ ids (inflight cs) ++ ids (map fst (g_fates s))) /\
@@ -1147,11 +1146,16 @@ Definition overlap_conservation_stmt (cfg : config) (ops : list cop) : Prop :=
   n_ingested s = qlen s + lenZ (inflight cs) + n_digested s + nfate Reported s
                  + nfate AutoDiscarded s + nfate EmergFail s + nfate Expired s.
 
-Lemma overlap_conservation_proof : forall cfg ops, overlap_conservation_stmt cfg ops.
+Definition overlap_conservation_stmt (cfg : config) (ops : list cop) : Prop :=
+  overlap_conservation_cs cfg (crun cfg ops).
+
+(* everything below follows from the invariant alone: it holds in every state
+   the invariant holds in, however that state was reached *)
+Lemma overlap_conservation_of_inv : forall cfg cs, CInv cfg cs -> overlap_conservation_cs cfg cs.
 Proof.
-  intros cfg ops. unfold overlap_conservation_stmt. cbv zeta.
-  pose proof (ci_inv _ _ (crun_inv cfg ops)) as I.
-  set (cs := crun cfg ops) in *. set (s := c_base cs) in *.
+  intros cfg cs CI. unfold overlap_conservation_cs. cbv zeta.
+  pose proof (ci_inv _ _ CI) as I.
+  set (s := c_base cs) in *.
   pose proof (inv_perm _ _ _ I) as P1. fold (fated s). rewrite <- app_assoc in P1.
   split; [exact P1|].
   split.
@@ -1164,6 +1168,9 @@ Proof.
   unfold fated in L. rewrite map_length in L.
   pose proof (nfate_total s) as T. unfold lenZ, qlen in *. lia.
 Qed.
+
+Lemma overlap_conservation_proof : forall cfg ops, overlap_conservation_stmt cfg ops.
+Proof. intros cfg ops. apply overlap_conservation_of_inv, crun_inv. Qed.
 
 (* ---- every digestion error is reported exactly once -------------------- *)
 
@@ -1178,17 +1185,17 @@ Proof.
   apply in_map_iff. exists y. split; [exact E|apply Hy].
 Qed.
 
-Definition reported_once_stmt (cfg : config) (ops : list cop) : Prop :=
-  let cs := crun cfg ops in
+Definition reported_once_cs (cs : cstate) : Prop :=
   Permutation (reported_ids cs) (ids (with_fate Reported (c_base cs))) /\
   NoDup (reported_ids cs) /\
   (forall i, (count_occ Z.eq_dec (reported_ids cs) i =
               if in_dec Z.eq_dec i (ids (with_fate Reported (c_base cs))) then 1 else 0)%nat).
 
-Lemma reported_once_proof : forall cfg ops, reported_once_stmt cfg ops.
+Definition reported_once_stmt (cfg : config) (ops : list cop) : Prop := reported_once_cs (crun cfg ops).
+
+Lemma reported_once_of_inv : forall cfg cs, CInv cfg cs -> reported_once_cs cs.
 Proof.
-  intros cfg ops. unfold reported_once_stmt. cbv zeta.
-  pose proof (crun_inv cfg ops) as CI. set (cs := crun cfg ops) in *.
+  intros cfg cs CI. unfold reported_once_cs.
   pose proof (ci_rep _ _ CI) as R. pose proof (ci_inv _ _ CI) as I.
   assert (ND : NoDup (ids (with_fate Reported (c_base cs)))).
   { pose proof (Inv_nodup_live _ _ _ I) as H. apply NoDup_app_r in H.
@@ -1202,10 +1209,12 @@ Proof.
   - apply count_occ_not_In. intros Hin. apply Hn. eapply Permutation_in; [exact R|exact Hin].
 Qed.
 
+Lemma reported_once_proof : forall cfg ops, reported_once_stmt cfg ops.
+Proof. intros cfg ops. apply (reported_once_of_inv cfg), crun_inv. Qed.
+
 (* ---- every returned DigestResult accounts for the items its call took -- *)
 
-Definition results_stmt (cfg : config) (ops : list cop) : Prop :=
-  let cs := crun cfg ops in
+Definition results_cs (cfg : config) (cs : cstate) : Prop :=
   (forall taken r, In (taken, r) (c_done cs) ->
      accounts cfg taken r /\
      forall it, In it taken -> In (it, pass_fate cfg it) (g_fates (c_base cs))) /\
@@ -1214,18 +1223,21 @@ Definition results_stmt (cfg : config) (ops : list cop) : Prop :=
      exists pre, p_taken ps = pre ++ p_todo ps /\ accounts cfg pre (p_res ps) /\
        forall it, In it pre -> In (it, pass_fate cfg it) (g_fates (c_base cs))).
 
-Lemma results_proof : forall cfg ops, results_stmt cfg ops.
+Definition results_stmt (cfg : config) (ops : list cop) : Prop := results_cs cfg (crun cfg ops).
+
+Lemma results_of_inv : forall cfg cs, CInv cfg cs -> results_cs cfg cs.
 Proof.
-  intros cfg ops. unfold results_stmt. cbv zeta.
-  pose proof (crun_inv cfg ops) as CI. split.
+  intros cfg cs CI. unfold results_cs. split.
   - apply (ci_done _ _ CI).
   - apply (ci_open _ _ CI).
 Qed.
 
+Lemma results_proof : forall cfg ops, results_stmt cfg ops.
+Proof. intros cfg ops. apply results_of_inv, crun_inv. Qed.
+
 (* ---- sensitive items ---------------------------------------------------- *)
 
-Definition overlap_toxic_stmt (cfg : config) (ops : list cop) : Prop :=
-  let cs := crun cfg ops in
+Definition overlap_toxic_cs (cfg : config) (cs : cstate) : Prop :=
   let s := c_base cs in
   (forall k v it, In (k, v) (bin s) -> In it (g_all s) -> it_id it = v -> it_type it <> Toxic) /\
   (forall ps k v it, In ps (c_open cs) -> In (k, v) (d_recycled (p_res ps)) ->
@@ -1247,10 +1259,11 @@ Proof.
   subst it'. exact H3.
 Qed.
 
-Lemma overlap_toxic_proof : forall cfg ops, overlap_toxic_stmt cfg ops.
+Definition overlap_toxic_stmt (cfg : config) (ops : list cop) : Prop := overlap_toxic_cs cfg (crun cfg ops).
+
+Lemma overlap_toxic_of_inv : forall cfg cs, CInv cfg cs -> overlap_toxic_cs cfg cs.
 Proof.
-  intros cfg ops. unfold overlap_toxic_stmt. cbv zeta.
-  pose proof (crun_inv cfg ops) as CI. set (cs := crun cfg ops) in *.
+  intros cfg cs CI. unfold overlap_toxic_cs. cbv zeta.
   pose proof (ci_inv _ _ CI) as I. set (s := c_base cs) in *.
   pose proof (inv_tox_nodup _ _ _ I) as Hnd.
   split; [intros k v it; apply (binok_not_toxic _ _ _ _ _ _ _ I (inv_bin _ _ _ I))|].
@@ -1271,6 +1284,9 @@ Proof.
     apply (proj1 (NoDup_count_occ' Z.eq_dec _) Hnd).
     eapply (inv_tox_complete _ _ _ I); eauto.
 Qed.
+
+Lemma overlap_toxic_proof : forall cfg ops, overlap_toxic_stmt cfg ops.
+Proof. intros cfg ops. apply overlap_toxic_of_inv, crun_inv. Qed.
 
 (* ---- bounded queue ------------------------------------------------------ *)
 
